@@ -146,6 +146,10 @@ def gen_scenario(prng, tier, index, focus):
     if prng.random() < 0.3:
         sc["node_order"] = [prng.choice(("reversed", "shuffled", "edges_first")), prng.randrange(2 ** 31)]
     if prng.random() < 0.3:
+        t2, _ = gen_target(prng, spec, prng.choice(("uniform", "random", "assortative", "disassortative", "spiky")),
+                           prng.choice(("none", "absent", "zero", "mixed")))
+        sc["retarget"] = [t2, prng.choice((1, 2, 3))]
+    if prng.random() < 0.3:
         sc["carry"] = [prng.randrange(2 ** 31), prng.choice((1, 2, 3, 5)), prng.choice(("same_size", "double"))]   # label permutation seed, accepted swaps on network B, size of B
     if prng.random() < 0.5:
         sc["chain"] = prng.choice((1, 1, 2, 3))     # accepted swaps of a second stage run on the first stage's result
@@ -259,6 +263,32 @@ def run_history(sc, ctx, prefix, on_state, on_abort=None):
         elif st not in ("ok", "budget"):
             ctx.violate(f"{P}.raised", f"second rewiring stage: {st} {describe_exc(G2) if st == 'raised' else ''}")
             return info
+    # The TARGET replaced on a live rewiring object through its public `ejks` setter (a parameter sweep over targets): the next
+    # rewire() must follow the new target - created edges are judged against it
+    if sc.get("retarget") and info["states"] > 0 and not info["inconclusive"] and "mc" in dir():
+        rows2, want = sc["retarget"]
+        single = all(t["size"] == 2 and "chord_topo" not in t and not t.get("part_only") for t in sc["spec"]["topos"])
+        nsw = want if single else 1
+        try:
+            ejks2 = build_target(dict(sc, target=rows2, target_order=None))
+        except Exception as e:
+            from .simrandom import HarnessError
+            raise HarnessError(f"scenario construction failed (second target): {e!r}")
+        mc.network = net
+        mc.ejks = ejks2
+        mc.convergence_limit = nsw - 1
+        src4 = ctx.source("rewire-retargeted", sc.get("policy"))
+        st, G4 = ctx.call(src4, mc.rewire, budget=budget_for(nsw), label="rewire[target replaced through the setter]")
+        ctx.check("C11.input")
+        ctx.probe("target_replaced_on_a_live_object")
+        if netsim.snapshot(G0) != before:
+            ctx.violate("C11.input", f"the given network was modified by rewire() after the target was replaced (status={st})")
+            return info
+        if st == "ok" and isinstance(G4, nx.Graph):
+            on_state(info["states"], G0, G4, None, dict(info, tgt={name: {tuple(k): w for k, w in rows} for name, rows in rows2.items()}))
+        elif st not in ("ok", "budget"):
+            ctx.violate(f"{P}.raised", f"rewire() after the target was replaced through the setter: {st} {describe_exc(G4) if st == 'raised' else ''}")
+            return info
     # ONE rewiring object carried to ANOTHER network through its public setter (ensemble use): network B is the same spec with
     # the vertex labels permuted, so every label's joint degree may differ while the classes - hence the target - stay valid.
     # Anything the object remembered about network A per label is stale now; B's result is judged like any other state.
@@ -284,6 +314,7 @@ def run_history(sc, ctx, prefix, on_state, on_abort=None):
         single = all(t["size"] == 2 and "chord_topo" not in t and not t.get("part_only") for t in sc["spec"]["topos"])
         nsw = sc["carry"][1] if single else 1
         mc.network = netB
+        mc.ejks = ejks                     # the original target (a retarget stage may have replaced it): B's result is judged against it
         mc.convergence_limit = nsw - 1
         src3 = ctx.source("rewire-carried", sc.get("policy"))
         st, G3 = ctx.call(src3, mc.rewire, budget=budget_for(nsw), label="rewire[object carried to another network]")
